@@ -208,6 +208,81 @@ class TopoPerturb:
 
 
 # =============================================================================================
+# MergeProgress: bounded-progress monitor of GaussianMerge.compile's rewrite loop
+# =============================================================================================
+
+class NoProgress(Exception):
+    """The rewrite loop of GaussianMerge.compile reached a command sequence it had already produced."""
+
+
+class MergeProgress:
+    """GaussianMerge.compile repeats merge_a_gaussian_op until it reports that nothing was merged.  The monitor
+    records the command sequence (classes, modes, parameters) at the start of every step of one compile() call; a
+    sequence seen for the third time means the loop is rewriting a sequence into itself - decided on logical steps,
+    not on wall-clock time - and the step raises NoProgress instead of spinning until the shard's watchdog fires."""
+
+    def __init__(self):
+        self.steps = 0
+        self.max_steps = 0
+        self._saved = None
+
+    @staticmethod
+    def _sig(seq):
+        out = []
+        for c in seq:
+            ps = []
+            for x in c.op.p:
+                try:
+                    ps.append(np.round(np.asarray(x, dtype=complex), 10).tobytes())
+                except Exception:
+                    ps.append(str(x))
+            out.append((type(c.op).__name__, tuple(r.ind for r in c.reg), tuple(ps)))
+        return hash(tuple(out))
+
+    def install(self):
+        from strawberryfields.compilers.gaussian_merge import GaussianMerge
+
+        mon = self
+        self._saved = (GaussianMerge.compile, GaussianMerge.merge_a_gaussian_op)
+        o_compile, o_step = self._saved
+
+        def compile(self_, seq, registers):
+            self_._vf_seen = {}
+            self_._vf_steps = 0
+            try:
+                return o_compile(self_, seq, registers)
+            finally:
+                mon.max_steps = max(mon.max_steps, self_._vf_steps)
+
+        def merge_a_gaussian_op(self_, registers):
+            seen = getattr(self_, "_vf_seen", None)
+            if seen is not None:
+                k = mon._sig(self_.curr_seq)
+                seen[k] = seen.get(k, 0) + 1
+                self_._vf_steps += 1
+                mon.steps += 1
+                if seen[k] >= 3:
+                    raise NoProgress("after %d steps the sequence %s is produced for the third time" % (
+                        self_._vf_steps, [(type(c.op).__name__, [r.ind for r in c.reg]) for c in self_.curr_seq]))
+            return o_step(self_, registers)
+
+        GaussianMerge.compile = compile
+        GaussianMerge.merge_a_gaussian_op = merge_a_gaussian_op
+        return self
+
+    def uninstall(self):
+        from strawberryfields.compilers.gaussian_merge import GaussianMerge
+
+        GaussianMerge.compile, GaussianMerge.merge_a_gaussian_op = self._saved
+
+    def __enter__(self):
+        return self.install()
+
+    def __exit__(self, *a):
+        self.uninstall()
+
+
+# =============================================================================================
 # ReachMonitor: which anchored functions / lines were actually executed
 # =============================================================================================
 
